@@ -14,7 +14,7 @@ def parseLine (d : DState) (line : String) : Except String DState :=
     match tag with
     | "H" =>
       .ok { d with hist := String.intercalate " " rest, step := 0, st := none,
-                   shadow := ⟨[], []⟩, feeTracked := true, lastMig := none, pend := {} }
+                   shadow := ⟨[], []⟩, feeTracked := true, lastMig := none, pend := {}, roles := none }
     | "E" =>
       match run (do
           let contract ← str
@@ -135,6 +135,13 @@ def unitCheck (tag : String) (rest : List String) : Option Bool :=
        | .ok n, o => some (o.toNat? == some n)
        | _, _ => some false)
     | _, _, _ => none
+  | "UFM", [f, qt, q1, q2, n1, n2] =>
+    match f.toNat?, qt.toNat?, q1.toNat?, q2.toNat?, n1.toNat?, n2.toNat? with
+    | some f, some qt, some q1, some q2, some n1, some n2 =>
+      (match Dec.feeFor f qt q1, Dec.feeFor f qt q2 with
+       | .ok m1, .ok m2 => some (m1 == n1 && m2 == n2 && decide (n1 ≤ n2))
+       | _, _ => some false)
+    | _, _, _, _, _, _ => none
   | "URF", [rate, amount, out] =>
     match decodeStr rate, amount.toNat? with
     | some r, some a =>
@@ -177,7 +184,8 @@ def seed (d : DState) : DState :=
   let sh : Spec.Shadow :=
     ⟨s.asks.map (fun kv => (kv.1, kv.2.size, Spec.shadowCls kv.2.cls)),
      s.bids.filterMap (fun kv => match kv.2 with | .v3 b => some (kv.1, b.remBase) | .v2 _ => none)⟩
-  { d with st := some s, shadow := sh, feeTracked := Spec.feeExact s, pend := {} }
+  { d with st := some s, shadow := sh, feeTracked := Spec.feeExact s, pend := {},
+           roles := some (s.info.approvers, s.info.executors) }
 
 partial def loop (h : IO.FS.Stream) (out : IO.FS.Stream) (d : DState) : IO DState := do
   let line ← h.getLine
